@@ -52,6 +52,15 @@ class Spec:
     def is_timing_reason(self, why):
         return False
 
+    def confirm_failure(self, scratch, binary, case, batch):
+        """Run a timing-based failure again, alone; return (case, result, why) if it still fails, else None."""
+        sub = Report()
+        nb = Batch("confirm", [case], config=batch.config if batch else None, env=batch.env if batch else {},
+                   timeout=min(batch.timeout, 600) if batch else 600, correspondence=batch.correspondence if batch else "")
+        nb.parallel = False
+        run_batches(self, scratch, binary, [nb], sub)
+        return sub.failures[0] if sub.failures else None
+
     def shrink(self, case):
         """Yield smaller variants of a failing case (optional)."""
         return []
@@ -251,17 +260,13 @@ def main_check(spec, tier, replay=None):
                     kept.append((c, r, why))
                     continue
                 b0 = c.meta.get("_batch")
-                sub = Report()
-                nb = Batch("confirm", [c], config=b0.config if b0 else None, env=b0.env if b0 else {}, timeout=min(b0.timeout, 600) if b0 else 600,
-                           correspondence=b0.correspondence if b0 else "")
-                nb.parallel = False
                 try:
-                    run_batches(spec, scratch, binary, [nb], sub)
+                    again = spec.confirm_failure(scratch, binary, c, b0)
                 except Broken:
                     kept.append((c, r, why))
                     continue
-                if sub.failures:
-                    c2, r2, why2 = sub.failures[0]
+                if again is not None:
+                    c2, r2, why2 = again
                     c2.meta["_batch"] = b0
                     kept.append((c2, r2, why2 + " (measured again alone)"))
                 else:
